@@ -339,6 +339,29 @@ func c03Check(ctx *vfCtx, c c03Case) {
 					return
 				}
 			}
+			// the builder itself carries JSON tags: a template decoded straight into a fresh builder (its
+			// prev / auth lists then are what encoding/json makes of a JSON array) builds the same event
+			var bev PDU
+			var berr error
+			if vfCatch(ctx, "C03/decoded-builder", func() {
+				eb := impl.NewEventBuilder()
+				if berr = json.Unmarshal(t1, eb); berr != nil {
+					return
+				}
+				_, priv := vfKeyFor(p.Key)
+				bev, berr = eb.Build(time.UnixMilli(p.TS), spec.ServerName(p.Origin), KeyID(p.KeyID), priv)
+			}) {
+				return
+			}
+			if berr != nil || bev == nil {
+				ctx.Fail("C03/built-from-decoded-builder-fails", "the proto-event builds directly; decoded into a fresh EventBuilder it fails: %v", berr)
+				return
+			}
+			ctx.Class("built-from-a-decoded-builder")
+			if bv, ok := c03ViewOf(ctx, "accessors/decoded-builder", bev); ok && !c03Same(bv, orig) {
+				ctx.Fail("C03/built-from-decoded-builder-differs", "the template decoded straight into a fresh EventBuilder builds %v; the proto-event built directly gives %v", bv, orig)
+				return
+			}
 		}
 	}
 	// --- siblings: the built event with ONE protected field changed and `hashes` left as it was (what a
